@@ -35,6 +35,30 @@ def sMap? : Sexp → Option (Handler.Str × List Int)
   | list [n, list vs] => do pure (← hStr? n, ← vs.mapM asInt?)
   | _ => none
 
+
+/-- a function table `((name id) ...)` -/
+def sTable? : Sexp → Option Table
+  | list es => es.mapM fun e => match e with
+    | list [n, i] => do pure (← hStr? n, ← asNat? i)
+    | _ => none
+  | _ => none
+
+def tableText (t : Table) : String :=
+  "(" ++ " ".intercalate (t.map fun e => "(" ++ hHex e.1 ++ " " ++ toString e.2 ++ ")") ++ ")"
+
+/-- the results of the calls as handed over in the input line: `((calltext var) ...)`; a call that is
+    not listed raised -/
+def sResults? : Sexp → Option (List (Handler.Str × Var))
+  | list es => es.mapM fun e => match e with
+    | list [c, v] => do pure (← hStr? c, ← hVar? v)
+    | _ => none
+  | _ => none
+
+def evTable (rs : List (Handler.Str × Var)) (_ : Dataset) (c : Handler.Str) : Except Exc Var :=
+  match rs.find? (·.1 = c) with
+  | some r => .ok r.2
+  | none => .error .ceError
+
 def handleSsf : List Sexp → Option String
   | [atom "ssf-route", p, q] => do
     match route (← hStr? p) (← hStr? q) with
@@ -66,6 +90,25 @@ def handleSsf : List Sexp → Option String
     let iv : Axis → Int × Int := fun a => match a with | .x => xs | .y => ys | .z => zs
     let rows ← rows.mapM fun r => match r with | list r => r.mapM asInt? | _ => none
     pure (toString (list ((bounds iv cols rows).map sInts)))
+  | [atom "ssf-handle", ds, p, q, rs] => do
+    -- `ServerSideFunctions(BaseHandler(ds))` past the routing; the evaluator is the table of results in the line
+    pure (hOutcome (ssfHandle intText (evTable (← sResults? rs)) (← hDataset? ds) (← hStr? p) (← hStr? q)))
+  | [atom "ssf-tables", stock, list kws, list qs] => do
+    -- a history of application constructions, then lookups `(app name)`; the tables, then the lookups
+    let p := buildApps ⟨← sTable? stock, []⟩ (← kws.mapM sTable?)
+    let qs ← qs.mapM fun q => match q with
+      | list [i, n] => do pure (← asNat? i, ← hStr? n)
+      | _ => none
+    let again := (loadFunctions p).1
+    pure (" ".intercalate (p.apps.map tableText) ++ " | " ++ tableText again ++ " | " ++
+      " ".intercalate (qs.map fun q => match appLookup p q.1 q.2 with | some i => toString i | none => "none"))
+  | [atom "ssf-tables-shared", stock, list kws, list qs] => do
+    -- the seeded mutant's process (one memoised table), for comparison
+    let p := buildAppsShared ⟨← sTable? stock, 0⟩ (← kws.mapM sTable?)
+    let qs ← qs.mapM fun q => match q with
+      | list [i, n] => do pure (← asNat? i, ← hStr? n)
+      | _ => none
+    pure (" ".intercalate (qs.map fun q => match appLookupShared p q.1 q.2 with | some i => toString i | none => "none"))
   | _ => none
 
 end Pydap.Driver
